@@ -6,6 +6,7 @@ import Driver.C19
 import Driver.Auth
 import Driver.C11
 import Driver.C15
+import Driver.C13
 open Driver
 
 def machines : List (String × Machine × Machine) :=
@@ -16,7 +17,8 @@ def machines : List (String × Machine × Machine) :=
    ("C01", Auth.machine, Auth.judgeC01),
    ("C03", Auth.machine, Auth.judgeC03),
    ("C11", C11.machine, C11.judge),
-   ("C15", C15.machine, C15.judge)]
+   ("C15", C15.machine, C15.judge),
+   ("C13", C13.machine, C13.judge)]
 
 def main (args : List String) : IO UInt32 := do
   match args with
